@@ -213,8 +213,8 @@ def _gen_macros(g: MG, n_macros: int):
 
 
 @st.composite
-def macro_programs(draw, single_file=True, max_stmts=45):
-    g = MG(draw, max_stmts=max_stmts)
+def macro_programs(draw, single_file=True, max_stmts=45, with_control=False):
+    g = MG(draw, max_stmts=max_stmts, with_control=with_control)
     n_macros = g.i(1, 6)
     macros, arity = _gen_macros(g, n_macros)
     g.macro_names = [m["name"] for m in macros]
